@@ -1,4 +1,5 @@
 import HcipyVerif.Lemmas.ApertureMain
+import HcipyVerif.Lemmas.AperturePolygon
 
 /-!
 # C12 — Apertures depend only on the physical points, not on the grid representation
@@ -141,13 +142,26 @@ theorem bounding_slices_empty {even : Bool} {r a : Rat} {dirs : List (Rat × Rat
     (decide (sq (xs.getD j 0) ≤ sq r) && decide (sq (ys.getD i 0) ≤ sq r)) = false :=
   regpolySub_none h i j hi hj
 
-/-- Irregular polygon, y direction only: a point with odd crossing number has a vertex at or below
-and a vertex strictly above it.  **Partial**: the x direction (and hence "inside the bounding
-rectangle of the vertices") needs the parity argument for closed polygons and is not proved; the
-model therefore keeps the rectangle test as part of `val (.irrpoly …)`, as the code does. -/
-theorem bounding_box_irregular_y_partial {vs : List Pt} {p : Pt} (h : containsPt vs p = true) :
-    (∃ v ∈ vs, v.2 ≤ p.2) ∧ (∃ w ∈ vs, p.2 < w.2) :=
-  containsPt_bbox_y_partial h
+/-- **Irregular polygon: the bounding box of the vertices is sound on all four sides.**  A point
+with odd crossing number has a vertex at or left of it, one strictly right of it, one at or below
+it and one strictly above it.  (+x: the intercept of a straddling edge is a convex combination of
+its end points, so no edge is crossed from the right of all vertices; −x: every straddling edge is
+crossed, and a closed polygon straddles a horizontal line an even number of times.) -/
+theorem bounding_box_irregular {vs : List Pt} {p : Pt} (h : containsPt vs p = true) :
+    (∃ v ∈ vs, v.1 ≤ p.1) ∧ (∃ w ∈ vs, p.1 < w.1) ∧ (∃ v ∈ vs, v.2 ≤ p.2) ∧ (∃ w ∈ vs, p.2 < w.2) :=
+  containsPt_bbox h
+
+/-- a closed polygon straddles any horizontal line an even number of times -/
+theorem closed_polygon_straddles_even (vs : List Pt) (p : Pt) :
+    ((edges vs).filter (straddle p)).length % 2 = 0 :=
+  straddles_even vs p
+
+/-- hence the rectangular pre-selection `res[mask] = contains_points(points[mask])` loses nothing
+whenever the rectangle covers the vertices: the aperture *is* the even-odd polygon -/
+theorem irregular_mask_redundant {vs : List Pt} {hx hy bx by_ : Rat}
+    (hbox : ∀ v ∈ vs, |v.1 - bx| ≤ hx ∧ |v.2 - by_| ≤ hy) (p : Pt) :
+    val (.irrpoly vs hx hy bx by_) p = b2r (containsPt vs p) :=
+  irrpoly_mask_redundant hbox p
 
 /-! ## masked assignment of segments -/
 
@@ -280,6 +294,13 @@ example : WF (.seg [((0, 0), 1/2)] (.rot 1 0 (.regpoly true 1 (7/8) [(1, 0), (0,
 
 example : Binary (.mul (.sub (.circle 2 0 0) (.circle 1 0 0)) (.mul (.const 1) (.spider 0 0 1 0 1 (1/8)))) :=
   Binary.mul (binary_obstructed_circle (by simp [rabs])) (Binary.mul Binary.const1 (Binary.spider ..))
+
+example : containsPt [(0, 0), (2, 0), (0, 2)] (1/2, 1/2) = true := by decide +kernel
+
+example : ∀ v ∈ [((0 : Rat), (0 : Rat)), (2, 0), (0, 2)], |v.1 - 1| ≤ (1 : Rat) ∧ |v.2 - 1| ≤ (1 : Rat) := by
+  intro v hv
+  simp at hv
+  rcases hv with rfl | rfl | rfl <;> norm_num [abs_le]
 
 example : ∃ f, supersampled (.circle 1 0 0) 2 2 [0, 1] [0, 1, 2] = some f := ⟨_, rfl⟩
 
